@@ -46,6 +46,10 @@ def v_frames(p, files=None, min_sites=15):
              f'{rel}:{s.lineno}: `{s.what.strip()}` — {s.why}', s.fn)
       fact(p, f'determ.sources:{n.name}', not nondet,
            f'{rel}::{n.name} uses no global RNG / clock / OS entropy ({nondet})', n.name)
+      lazy = own.lazy_in_state(n)
+      fact(p, f'frame.lazy:{n.name}', not lazy,
+           f'{rel}::{n.name} stores no single-use iterator (map / zip / generator object) in a state it returns: reading a '
+           f'state must not change it ({lazy})', n.name)
       rebind = [x for x in ast.walk(n) if isinstance(x, (ast.Nonlocal, ast.Global))]
       fact(p, f'frame.globals:{n.name}', not rebind,
            f'{rel}::{n.name} never rebinds closure or module variables', n.name)
